@@ -16,27 +16,28 @@ PP = "prqlc/prqlc-parser/src/"
 
 # (file, kind, item, disposition, model/lemma, finding or "", note)
 SITES = [
-    (PP + "parser/stmt.rs", "hash-iter", "query_def:args.into_iter", "nothash", "", "", "`args` on the right-hand side is the Vec of parsed (name, expr) pairs being collected into the map"),
-    (PP + "parser/stmt.rs", "hash-iter", "query_def:args.keys", "refuted:concat_in_order", "concat_in_order_refuted", "F10b-querydef-unknown-args-order", "unknown `prql` header arguments are listed in iteration order"),
-    (P + "codegen/ast.rs", "hash-iter", "write:named_args.for", "refuted:concat_in_order", "concat_in_order_refuted", "F10c-formatter-named-args-order", "pl_to_prql prints named arguments in iteration order"),
+    (PP + "parser/stmt.rs", "hash-iter", "query_def:args.into_iter +sorted", "nothash", "", "", "`args` on the right-hand side is the Vec of parsed (name, expr) pairs being collected into the map (the flag comes from the .sorted() further down)"),
+    (PP + "parser/stmt.rs", "hash-iter", "query_def:args.keys +sorted", "inv:sort", "c11_perm_invariant_text_of_sorted", "", "unknown `prql` header arguments: .keys().sorted() before joining (was F10b)"),
+    (P + "codegen/ast.rs", "hash-iter", "write:named_args.for", "nothash", "", "", "`named_args` is the local Vec that was sorted by name just above"),
+    (P + "codegen/ast.rs", "hash-iter", "write:named_args.iter +sorted", "inv:sort_by_key", "c11_perm_invariant_text_of_sorted_by_key", "", "named arguments collected into a Vec and sorted by name before printing (was F10c)"),
     (P + "codegen/ast.rs", "hash-iter", "write:other.for", "inv:at_most_one", "perm_invariant_at_most_one", "", "QueryDef.other holds at most the `target` entry (parser/stmt.rs)"),
     (P + "codegen/ast.rs", "once", "KEYWORDS", "once", "CFmtKeywords", "", ""),
     (P + "codegen/ast.rs", "once", "VALID_PRQL_IDENT", "once", "CRegexPrqlIdent", "", ""),
     (P + "debug/log.rs", "clock", "log_start:SystemTime", "nooutput", "", "", "timestamp stored in the debug log only"),
-    (P + "debug/log.rs", "lock", "CURRENT_LOG", "lock", "g_log / g_poisoned", "F10h-debug-log-restart-poisons-lock", "log slot of Model/Globals.v"),
+    (P + "debug/log.rs", "lock", "CURRENT_LOG", "lock", "g_log / g_poisoned", "F10j-concurrent-log-restart-underflow", "log slot of Model/Globals.v; log_start no longer asserts (F10h fixed)"),
     (P + "debug/render_html.rs", "hash-iter", "write_decl:names.iter +sorted", "nooutput", "", "", "HTML rendering of the debug log"),
     (P + "debug/render_html.rs", "hash-iter", "write_repr_decl:names.iter +sorted", "nooutput", "", "", "HTML rendering of the debug log"),
     (P + "debug/render_html.rs", "hash-iter", "write_repr_prql:source_ids.iter", "nooutput", "", "", "HTML rendering of the debug log"),
     (P + "debug/render_html.rs", "hash-iter", "write_repr_prql:sources.for", "nooutput", "", "", "HTML rendering of the debug log"),
-    (P + "ir/pl/fold.rs", "hash-iter", "fold_func_call:named_args.into_iter", "refuted:first_error", "first_error_refuted", "F10e-named-args-first-error", "values re-collected into a map (perm_invariant_map_values); the first failing argument in iteration order is reported"),
+    (P + "ir/pl/fold.rs", "hash-iter", "fold_func_call:named_args.into_iter", "refuted:first_error", "first_error_order_dependent", "", "LATENT: values re-collected into a map (perm_invariant_map_values), but the first failing argument in iteration order would be reported; not reachable with two failing arguments in any sampled program (named arguments are consumed by apply_args_to_closure before a PlFold visits the call)"),
     (P + "ir/pl/lineage.rs", "hash-iter", "sorted_set:value.iter +sorted", "inv:sort", "perm_invariant_sort", "", ".sorted() before serialising"),
     (P + "lib.rs", "env", "compiler_version:var(PRQL_VERSION_OVERRIDE)", "env", "SReadEnv", "", "PRQL_VERSION_OVERRIDE is read on every call; constant during a run (assumption)"),
     (P + "lib.rs", "hash-iter", "insert:source_ids.keys", "inv:max", "perm_invariant_max", "", ".keys().max()"),
     (P + "lib.rs", "once", "COMPILER_VERSION", "once", "CVersion", "", ""),
     (P + "parser.rs", "hash-iter", "linearize_tree:sources.for +sorted", "inv:sort_by_key", "perm_invariant_sort_by_key", "", "sorted by module path afterwards (module paths of distinct files assumed distinct)"),
-    (P + "parser.rs", "hash-iter", "linearize_tree:sources.keys +sorted", "refuted:find_first", "find_first_refuted", "F10g-two-uppercase-root-candidates", ".keys().next() only when len == 1; .keys().find(starts_with_uppercase) picks the root: order-dependent with two candidates; the error listing is .sorted()"),
+    (P + "parser.rs", "hash-iter", "linearize_tree:sources.keys +sorted", "inv:sort", "c11_perm_invariant_root_choice", "", ".keys().next() only when len == 1; root = .keys().sorted().find(starts_with_uppercase) (was F10g); the error listing is .sorted()"),
     (P + "parser.rs", "hash-iter", "parse:source_ids.iter", "inv:lookup", "perm_invariant_lookup", "", "reverse map path -> id re-collected; paths are distinct"),
-    (P + "semantic/ast_expand.rs", "hash-iter", "expand_expr:named_args.into_iter", "refuted:first_error", "first_error_refuted", "F10e-named-args-first-error", "try_collect: the first failing named argument in iteration order is reported"),
+    (P + "semantic/ast_expand.rs", "hash-iter", "expand_expr:named_args.into_iter +sorted", "inv:sort_by_key", "c11_perm_invariant_named_args_first_error", "", ".sorted_by(name) before try_collect: the first failing argument in NAME order is reported (was F10e)"),
     (P + "semantic/ast_expand.rs", "hash-iter", "expand_func_params:value.into_iter", "nothash", "", "", "`value` is a Vec<FuncParam> here"),
     (P + "semantic/ast_expand.rs", "hash-iter", "expand_stmts:value.into_iter", "nothash", "", "", "`value` is a Vec<Stmt> here"),
     (P + "semantic/ast_expand.rs", "hash-iter", "restrict_expr_kind:named_args.into_iter", "inv:map_values", "perm_invariant_map_values", "", "infallible map re-collected into a map"),
@@ -47,12 +48,12 @@ SITES = [
     (P + "semantic/lowering.rs", "hash-iter", "lower_to_ir:tables.for", "nothash", "", "", "`tables` is the Vec returned by toposort_tables"),
     (P + "semantic/lowering.rs", "hash-iter", "redirect_mappings:node_mapping.values_mut", "inv:map_values", "perm_invariant_map_values", "", "each value updated on its own"),
     (P + "semantic/lowering.rs", "hash-iter", "toposort_tables:tables.for +sorted", "inv:sort_by_key", "perm_invariant_sort_by_key", "", "dependencies.sort_by(ident) before the toposort ('to make sure lowering is stable')"),
-    (P + "semantic/module.rs", "hash-iter", "as_decls:names.for", "refuted:sort_by_key_dup", "sort_by_key_dup_refuted", "F10i-available-columns-hint-order", "the only consumer (resolver/names.rs collect_columns_in_module) does a stable sort by Decl::order, which is shared by several declarations: their iteration order survives into the `available columns` hint"),
+    (P + "semantic/module.rs", "hash-iter", "as_decls:names.for", "inv:sort", "c11_perm_invariant_available_columns", "", "the only consumer (resolver/names.rs collect_columns_in_module) sorts by (Decl::order, ident): a total order on distinct idents (was F10i)"),
     (P + "semantic/module.rs", "hash-iter", "from_exprs:exprs.into_iter", "inv:map_values", "perm_invariant_map_values", "", "re-collected into a map"),
     (P + "semantic/module.rs", "hash-iter", "into_exprs:names.into_iter", "inv:map_values", "perm_invariant_map_values", "", "re-collected into a map"),
     (P + "semantic/reporting.rs", "hash-iter", "label_module:names.iter", "nooutput", "", "", "lineage / debug reporting"),
-    (P + "semantic/resolver/expr.rs", "hash-iter", "construct_tuple_from_module:names.iter +sorted", "inv:sort_by_key", "perm_invariant_sort_by_key", "", ".sorted_by_key(order); distinct orders assumed"),
-    (P + "semantic/resolver/functions.rs", "hash-iter", "apply_args_to_closure:named_args.into_iter", "refuted:head_of", "head_of_refuted", "F10-unknown-named-arg-choice", "named_args.into_iter().next() names one of the leftover arguments"),
+    (P + "semantic/resolver/expr.rs", "hash-iter", "construct_tuple_from_module:names.iter +sorted", "inv:sort_by_key", "perm_invariant_sort_by_key", "", ".sorted_by_key(order); distinct orders ASSUMED (if two declarations shared an order their iteration order would survive: sort_by_key_with_shared_key_order_dependent); no variation observed"),
+    (P + "semantic/resolver/functions.rs", "hash-iter", "apply_args_to_closure:named_args.into_keys", "inv:min", "c11_perm_invariant_apply_args_to_closure", "", ".into_keys().min(): the alphabetically first leftover argument is named (was F10)"),
     (P + "semantic/resolver/functions.rs", "hash-iter", "resolve_function_args:other.for", "nothash", "", "", "`other` is a Vec here"),
     (P + "semantic/resolver/names.rs", "hash-iter", "ambiguous_error:idents.for +sorted", "inv:sort", "perm_invariant_sort", "", "chunks.sort() before joining"),
     (P + "semantic/resolver/names.rs", "hash-iter", "ambiguous_error:idents.iter +sorted", "inv:all", "perm_invariant_all", "", ".all(..)"),
@@ -65,10 +66,10 @@ SITES = [
     (P + "sql/operators.rs", "once", "STD", "once", "CStd", "", ""),
     (P + "sql/pq/gen_query.rs", "hash-iter", "compile_relation_instance:cid_redirects.iter", "inv:find_value", "perm_invariant_find_value", "", "find_map by value, then the value is read back"),
     (P + "sql/pq/postprocess.rs", "hash-iter", "alias_last_sorting:cid_redirects.iter", "inv:find_unique", "perm_invariant_find_unique", "", "first redirect whose target is the column; redirect targets assumed distinct"),
-    (P + "sql/pq/postprocess.rs", "hash-iter", "alias_last_sorting:column_decls.values", "refuted:lookup_last", "lookup_last_refuted", "F10d-sort-alias-choice", "column -> alias map collected with repeated keys: the last alias in iteration order wins"),
-    (P + "sql/pq/postprocess.rs", "hash-iter", "alias_last_sorting:relation_instances.iter", "inv:lookup", "perm_invariant_lookup", "", "re-collected into a map keyed by RIId"),
+    (P + "sql/pq/postprocess.rs", "hash-iter", "alias_last_sorting:column_decls.iter +sorted", "inv:sort_by_key", "c11_perm_invariant_alias_last_sorting", "", "entries sorted by descending column id before the column -> alias map is collected: the alias with the smallest id wins (was F10d)"),
+    (P + "sql/pq/postprocess.rs", "hash-iter", "alias_last_sorting:relation_instances.iter +sorted", "inv:lookup", "perm_invariant_lookup", "", "re-collected into a map keyed by RIId (the flag comes from the sort of column_decls further down)"),
     (P + "sql/pq/postprocess.rs", "hash-iter", "assign_names:table_decls.values_mut +sorted", "inv:sort_by_key", "perm_invariant_sort_by_key", "", ".sorted_by_key(id)"),
-    (P + "sql/pq/postprocess.rs", "hash-iter", "fold_sql_query:relation_instances.iter_mut", "refuted:find_first", "find_first_refuted", "F10f-cte-instance-choice", ".find(source == cte.tid) with two instances of one CTE"),
+    (P + "sql/pq/postprocess.rs", "hash-iter", "fold_sql_query:relation_instances.iter_mut", "inv:min_by_key", "c11_perm_invariant_cte_instance", "", ".filter(source == cte.tid).min_by_key(riid): the instance with the smallest id (was F10f)"),
     (P + "sql/pq/preprocess.rs", "hash-iter", "vecs_contain_same_elements:a.iter", "nothash", "", "", "slice iteration collected into a set; sets compared with =="),
     (P + "sql/pq/preprocess.rs", "hash-iter", "vecs_contain_same_elements:b.iter", "nothash", "", "", "slice iteration collected into a set; sets compared with =="),
     (P + "utils/mod.rs", "once", "VALID_IDENT", "once", "CRegexIdent", "", ""),
